@@ -29,11 +29,16 @@ pub trait VReadSeek: Sized {
                 &&& final(buf)@.subrange(n, old(buf)@.len() as int) == old(buf)@.subrange(n, old(buf)@.len() as int)
             },
             r is Err ==> final(self).pos() == old(self).pos();
+    // "this volume never reports an I/O error" (used by `new` only, whose unwrap()s panic by design on an I/O error)
+    spec fn never_fails(&self) -> bool;
     fn seek(&mut self, pos: SeekFrom) -> (r: std::io::Result<u64>)
         ensures
             final(self).data() == old(self).data(),
+            final(self).never_fails() == old(self).never_fails(),
             r is Ok ==> (pos matches SeekFrom::Start(p) ==> final(self).pos() == p && r->Ok_0 == p),
-            r is Err ==> final(self).pos() == old(self).pos();
+            r is Ok ==> (pos matches SeekFrom::End(o) ==> final(self).pos() == old(self).data().len() + o && r->Ok_0 == old(self).data().len() + o),
+            r is Err ==> final(self).pos() == old(self).pos(),
+            old(self).never_fails() && (pos is Start || pos == SeekFrom::End(0)) ==> r is Ok;
 }
 
 //@ extract src/utils/seekablechain.rs struct SeekableChain
@@ -139,6 +144,30 @@ impl<RS: VReadSeek> SeekableChain<RS> {
             })
         &&& (self.cur_idx >= self.chain@.len() ==> self.abs_pos == self.max_pos && self.rel_pos == 0)
     }
+
+// ---- SeekableChain::new, in the pieces that are within reach: the closure that measures and rewinds one volume, and the final
+// struct literal. Not verified: that `into_iter().map(closure).collect()` applies the closure to every volume in order and that
+// `iter().map(|(size, _)| size).sum()` adds the sizes up (std iterator adapters, R11: assumed) ----
+//@ extract src/utils/seekablechain.rs closure SeekableChain::new#1
+//@   sig pub fn new_entry(mut r: RS) -> (e: (u64, RS))
+//@   spec
+//@|    requires r.never_fails(), r.data().len() <= u64::MAX,
+//@|    ensures
+//@|        e.0 == r.data().len(), // O:new.entry.size (the recorded size is the volume's length)
+//@|        e.1.data() == r.data(), // O:new.entry.frame
+//@|        // (that the volume is rewound here is not demanded: read() rewinds a volume itself whenever it starts at its beginning)
+//@ end
+//@ extract src/utils/seekablechain.rs region `SeekableChain { max_pos` .. `SeekableChain { max_pos` in SeekableChain::new
+//@   sig pub fn new_from_parts(chain: Vec<(u64, RS)>, max_pos: u64) -> (r: SeekableChain<RS>)
+//@   spec
+//@|    requires
+//@|        sizes_match(chain@), // established element-wise by new_entry
+//@|        max_pos == sum_sizes(chain@, chain@.len() as int), // the sum computed by iter().map(|(size, _)| size).sum()
+//@|        chain@.len() < usize::MAX,
+//@|    ensures
+//@|        r.wf(), // O:new.wf
+//@|        r.abs_pos == 0 && r.chain@ == chain@, // O:new.start
+//@ end
 
 //@ extract src/utils/seekablechain.rs <HasLength for SeekableChain>::len
 //@   spec
